@@ -376,6 +376,12 @@ func runC08(r *core.Run) {
 		for _, f := range []int{8, 256} {
 			s := store.New()
 			two := []gen.DirEntry{gen.Leaf(s, "target-one"), gen.Leaf(s, "the second target")}
+			if i%2 == 1 {
+				// an empty file: its link has Tsize 0 (present, value 0)
+				ec, _ := gen.V1Raw.Sum(nil)
+				s.Put(ec, []byte{})
+				two[1] = gen.DirEntry{Cid: ec, Tsize: 0}
+			}
 			leaves := map[string]gen.DirEntry{}
 			var es []gen.DirEntry
 			set := map[string]bool{}
